@@ -108,6 +108,17 @@ pub fn run(ctx: &mut Ctx) {
                         return;
                     }
                     Ok(st) => {
+                        // the same deterministic solve repeated on the same Game value must give
+                        // the same bits (no state carried over from one solve to the next)
+                        if method == SolveMethod::Full && threads == 1 && rng.chance(0.25) {
+                            if let Outcome::Ok(again) = solve::run(&prep, &cfg, None) {
+                                if again.dense != out.dense || again.bounds.map(f64::to_bits) != out.bounds.map(f64::to_bits) {
+                                    ctx.violation(idx, "C08:same-solve-twice-differs", &format!("{} run twice on one Game value gave different results ({})", cfg.describe(), desc), detail());
+                                    return;
+                                }
+                                ctx.count("deterministic_solves_repeated_on_the_same_game_value", 1);
+                            }
+                        }
                         ctx.count("passes_checked", st.passes);
                         ctx.count("infoset_transitions_checked", st.infoset_transitions);
                         ctx.count("visits_checked", st.visits_checked);
